@@ -258,3 +258,11 @@ Definition spec_C08 (sc : escen) (ob : eobs) : bool := spec_batch_runs (fun _ =>
 Definition spec_C09 (sc : escen) (ob : eobs) : bool :=
   spec_batch_runs (fun canc v => spec_C09_view (canc || any_cancel (bv_mid v)) v) sc (es_precancel sc) ob.
 Definition spec_C11 (sc : escen) (ob : eobs) : bool := spec_batch_runs spec_C11_view sc (es_precancel sc) ob.
+
+(* the predicates the C02 / C17 checks apply: the proved predicate of the property on the
+   engine side (Spec/SpecEngine.v) together with the batch-side predicates above, for runs
+   whose root is a batch node (per-item retry budget and fallback; slots hold exactly what the
+   item's exec / fallback returned, wrapped once) *)
+From Flyt Require Import Lifecycle SpecC18 SpecEngine.
+Definition spec_C02x (sc : escen) (ob : eobs) : bool := spec_C02 sc ob && spec_C07 sc ob.
+Definition spec_C17x (sc : escen) (ob : eobs) : bool := spec_C17 sc ob && spec_C06 sc ob.
